@@ -443,6 +443,14 @@ def rand_date(rng):
 
 def rand_sd(rng, with_rates):
     vals = [rng.uniform(0, 0.01) for _ in range(14)]
+    r = rng.random()
+    if r < 0.08:
+        vals[:7] = [0.0] * 7                      # parameters held exact (uncertainties of exactly zero), rates uncertain or absent
+    elif r < 0.12:
+        vals = [0.0] * 14
+    elif r < 0.2:
+        for i in rng.sample(range(14), rng.randrange(1, 5)):
+            vals[i] = 0.0
     if not with_rates:
         return K.TransformationSD(*vals[:7])
     return K.TransformationSD(*vals)
@@ -602,6 +610,14 @@ def g_iers(rng):
     vals = [round(rng.uniform(-100, 100), rng.choice([0, 1, 2, 3, 5])) for _ in range(14)]
     if rng.random() < 0.1:
         vals = [rng.uniform(-100, 100) for _ in range(14)]
+    r = rng.random()
+    if r < 0.08:
+        vals[7:] = [0.0] * 7                      # a table row without rates (older realisations): every rate exactly zero
+    elif r < 0.14:
+        vals[7:] = [rng.choice([0, 0.0, -0.0]) for _ in range(7)]
+    elif r < 0.2:
+        for i in rng.sample(range(14), rng.randrange(1, 6)):
+            vals[i] = rng.choice([0.0, 0])
     return ['ITRF2014', 'ITRF2008', rand_date(rng)] + vals
 
 
